@@ -89,6 +89,9 @@ def ob_rib_in(w0: bool, w1: bool, w2: bool, a0: bool, a1: bool, a2: bool, lp: in
     for k in model:
         if not same(rib[k], model[k]):
             return False
+    # the other direction's table and counter are not touched by what is received
+    if len(p.adj_rib_out['ipv4']) != 0 or p.send_version['ipv4'] != 0:
+        return False
     v2 = p.receive_version['ipv4']
     if changed:
         return v2 > ver
@@ -188,6 +191,9 @@ def ob_rib_out(lp: int, p0: int, sel: int, ver: int) -> bool:
     v2 = r2.obj['version']['ipv4']
     if v2 != p.send_version['ipv4']:
         return False
+    # the other direction's table and counter are not touched by what is sent
+    if len(p.adj_rib_in['ipv4']) != 0 or p.receive_version['ipv4'] != 0:
+        return False
     return (v2 > ver) if changed else (v2 == ver)
 
 
@@ -227,6 +233,11 @@ def ob_family_version(m1: int, m2: int) -> bool:
     if second == 0:
         w.ev_data(reach(items[0], m2))
         exp = v1 + (0 if m2 == m1 else 1)
+        if P.get('third'):
+            # ... and the same announcement once more: no change, whatever happened before
+            if p.receive_version[key] != exp:
+                return False
+            w.ev_data(reach(items[0], m2))
     elif second == 1:
         w.ev_data(reach(items[1], m2))
         exp = v1 + 1
@@ -266,6 +277,8 @@ def obligations(tier, seed):
             out.append(ob('C19/rib-out/%s/present=%s' % (mode, ''.join('1' if x else '0' for x in present)), 'ob_rib_out',
                           {'mode': mode, 'present': present}, covers=['called'], cap=280 if quick else 800))
     for fam in ('flowspec', 'vpnv4'):
+        out.append(ob('C19/version/%s/change-then-repeat' % fam, 'ob_family_version', {'family': fam, 'second': 0, 'third': True},
+                      covers=['second'], cap=280 if quick else 800))
         for second in range(6):
             out.append(ob('C19/version/%s/second=%d' % (fam, second), 'ob_family_version', {'family': fam, 'second': second},
                           covers=['second'], cap=280 if quick else 800))
